@@ -523,7 +523,7 @@ func TestRegDebug(t *testing.T) {
 			continue
 		}
 		seen := map[string]bool{}
-		for k := 0; k < 30; k++ {
+		for k := 0; k < envInt("VERIF_DBG_K", 30); k++ {
 			v := m.mk()
 			if !fill(reflect.ValueOf(v).Elem(), k, 0) {
 				continue
